@@ -135,17 +135,29 @@ impl Check for C13 {
     fn generate(&self, seed: u64, _tier: Tier) -> Sc {
         let mut r = Rng::new(seed);
         let k = r.urange(1, 3);
+        // a few "hot" names per scenario, so that clients (and the hub's initial tree) collide on
+        // the same paths often even though the name universe is wide
+        let hot: Vec<&str> = (0..3).map(|_| *r.pick(NAMES)).collect();
+        let mut name = |r: &mut Rng| -> String {
+            if r.below(3) < 2 {
+                (*r.pick(&hot)).to_string()
+            } else {
+                (*r.pick(NAMES)).to_string()
+            }
+        };
         let mut clients = Vec::new();
         for _ in 0..k {
             let mut tree = BTreeMap::new();
             for _ in 0..r.urange(1, 5) {
-                tree.insert((*r.pick(NAMES)).to_string(), r.below(8) as u32);
+                let n = name(&mut r);
+                tree.insert(n, r.below(8) as u32);
             }
             clients.push((tree.into_iter().collect(), r.below(3) == 0));
         }
         let mut hub_init = BTreeMap::new();
         for _ in 0..r.urange(0, 3) {
-            hub_init.insert((*r.pick(NAMES)).to_string(), r.below(8) as u32);
+            let n = name(&mut r);
+            hub_init.insert(n, r.below(8) as u32);
         }
         if r.coin() {
             hub_init.insert("hub-only/keep".to_string(), 99);
